@@ -18,6 +18,10 @@ META = {
  "C03": m("The specification's total decoder Dec is the oracle: TLC validates the outcome (accept/reject, value, consumed) of the real decoder on "
           "mutated/near-valid/random byte strings for every registry type; panics are unexplained events.",
           "DESIGN.md §6 C03", "TLA+ spec + TLC model checking + TLC trace validation of decode outcomes"),
+ "C04": m("MC_Compact: exhaustive for 8/16-bit values and all strings up to 2 bytes, boundary-complete families for 32/64/128 bit (round trip, minimality, "
+          "width compatibility, canonicity, buffer capacity). The same spaces are driven through the real Compact encoders/decoders (exhaustive u8/u16 "
+          "and <=2-byte strings; TLC-generated vectors; random) and every record is validated by TLC.",
+          "DESIGN.md §6 C04", "TLA+ spec + exhaustive TLC model checking (8/16 bit) + TLC-generated vectors replayed + TLC trace validation"),
  "C08": m("Every input is decoded through all back-ends and all wrapper stacks (length <= 3) with non-binding limits; TLC requires each outcome to equal Dec.",
           "DESIGN.md §6 C08", "TLA+ spec + TLC trace validation across input configurations"),
  "C11": m("Depth envelope (MinDepth <= observed <= MaxDepth), balance of descend/ascend, and Limited(L) = (L >= dObs ? Unlimited : err) checked by TLC on "
@@ -33,4 +37,4 @@ META = {
 }
 
 PENDING = "check under construction in this session; will be claimed once quiet on the unchanged tree"
-NOT_APPLICABLE = {k: PENDING for k in ["C04","C05","C06","C07","C09","C10","C13","C15","C16","C17","C20"]}
+NOT_APPLICABLE = {k: PENDING for k in ["C05","C06","C07","C09","C10","C13","C15","C16","C17","C20"]}
